@@ -140,6 +140,22 @@ def scenarios():
               "requests": [req(0, "recv", "K", 1, 0, [0], remote=1), req(0, "recv", "K", 1, 3, [1], remote=2), req(0, "create", "K", 1, 6, [2], remote=2)],
               "streams": [{"key": [1, 0, "recv"], "responses": K(1)}, {"key": [2, 0, "recv"], "responses": K(1, [1])},
                           {"key": [2, 0, "create"], "responses": K(1, [2])}]})
+    # 11c. a create request the network stack refuses (its subroutine ends with that error), and a valid one on the same socket -
+    # before it, after it, or both
+    for nm, order in (("refused-then-valid", ["bad", "good"]), ("valid-then-refused", ["good", "bad"]), ("refused-valid-refused-valid", ["bad", "good", "bad", "good2"])):
+        apps_, reqs_, n_good = [], [], 0
+        for j, what in enumerate(order):
+            if what == "bad":
+                apps_.append({"app": 0, "unit": 3, "faults": True, "after_done": j - 1 if j else None,
+                              "text": create(20, 21, [2], 22, 0, 1, opts={7: 9})})
+            else:
+                base = 6 * n_good
+                apps_.append({"app": 0, "unit": 3, "after_done": j - 1 if j else None,
+                              "text": create(base, base + 1, [n_good], base + 2, 0, 1) + wall(base, 1)})
+                reqs_.append(req(0, "create", "K", 1, base, [n_good]))
+                n_good += 1
+        S.append({"name": nm, "stack_refuses_priority": 9, "apps": apps_, "requests": reqs_,
+                  "streams": [{"key": [1, 0, "create"], "responses": K(n_good, [1, 2][:n_good])}]})
     # 12. create requests whose result arrays are larger than their number of pairs needs (hand-written subroutine)
     S.append({"name": "create-oversized-result-arrays", "apps": [{"app": 0, "unit": 3, "text":
               arr(0, 30) + arr(2, 20) + stores(2, [0, 1]) + arr(1, 1) + stores(1, [0]) + "create_epr(1,0) 1 2 0\n" +
